@@ -97,6 +97,8 @@ def random_organic(rng: random.Random, nmin=1, nmax=40):
 # ---------------------------------------------------------------- M3 symmetric skeletons
 
 def cycle(n):
+    if n < 3:
+        return path(n)
     return n, [(i, (i + 1) % n) for i in range(n)]
 
 
